@@ -195,3 +195,31 @@ fn c17_jump_into_cut_short_push_data() {
     }
     println!("CASES c17_cut_short_push {cases}");
 }
+
+/// a stack overflow (the 1025th item, by PUSH or by any DUPn) is an execution error in BOTH modes, located at the overflowing
+/// instruction; an underflow by each of DUPn / SWAPn / POP likewise
+#[test]
+fn c17_stack_overflow_and_underflow_are_errors_in_both_modes() {
+    std::panic::set_hook(Box::new(|_| {}));
+    let mut progs: Vec<(String, Vec<u8>, usize, &str)> = vec![];
+    for tail in [0x5fu8, 0x80, 0x81, 0x8f, 0x30, 0x36] {
+        let mut code: Vec<u8> = std::iter::repeat(0x5fu8).take(1024).collect();
+        code.extend([tail, 0x00]);
+        progs.push((format!("1024 x PUSH0 then opcode {tail:#04x}"), code, 1024, "StackDepthExceeded"));
+    }
+    for (tail, have) in [(0x80u8, 0usize), (0x81, 1), (0x8f, 15), (0x90, 1), (0x9f, 16), (0x50, 0), (0x01, 1), (0x55, 1)] {
+        let mut code: Vec<u8> = std::iter::repeat(0x5fu8).take(have).collect();
+        code.extend([tail, 0x00]);
+        progs.push((format!("{have} items then opcode {tail:#04x}"), code, have, "NoSuchStackFrame"));
+    }
+    let n = progs.len();
+    for (what, code, at, kind) in progs {
+        for permissive in [false, true] {
+            let Some(errs) = vm_errors(&code, permissive, 10_000_000) else { continue };
+            if !errs.iter().any(|e| e.starts_with(&format!("{at}:")) && e.contains(kind)) {
+                witness("C17", "ctl.stack_errors_surface_in_both_modes", format!("{what} (permissive={permissive}): code of {} bytes ending {:02x?}", code.len(), &code[code.len().saturating_sub(4)..]), format!("errors {errs:?}"), format!("{kind} located at {at}"));
+            }
+        }
+    }
+    println!("CASES c17_stack_errors {n}");
+}
